@@ -17,6 +17,7 @@ What is translated from /repo's *current* source on every run (pure `ast`, nothi
 from __future__ import annotations
 
 import ast
+import copy
 
 from ..gen import EXTRA, REPO, Untranslatable
 from ..pyexpr import find_function, parse_file
@@ -68,6 +69,113 @@ def _enum_values(path: str) -> dict[str, str]:
                         and isinstance(st.value, ast.Constant) and isinstance(st.value.value, str)):
                     out[f"{node.name}.{st.targets[0].id}"] = st.value.value
     return out
+
+
+# ---- normalisation of method bodies (behaviour-preserving refactorings must not change the translation) ------------
+def _assigned_names(node: ast.AST) -> set[str]:
+    out = set()
+    for n in ast.walk(node):
+        if isinstance(n, ast.Name) and isinstance(n.ctx, (ast.Store, ast.Del)):
+            out.add(n.id)
+    return out
+
+
+class _Subst(ast.NodeTransformer):
+    def __init__(self, name, expr):
+        self.name, self.expr, self.count = name, expr, 0
+
+    def visit_Name(self, node):
+        if node.id == self.name and isinstance(node.ctx, ast.Load):
+            self.count += 1
+            return copy.deepcopy(self.expr)
+        return node
+
+
+def inline_once_locals(fn: ast.FunctionDef) -> ast.FunctionDef:
+    """A local that is assigned exactly once (plain `name = expr` at the top level of the body), read exactly once afterwards,
+    with no assignment to any name of `expr` in between, is replaced by its expression at the use (`threshold = mean(x) * eps;
+    padding = x < threshold`  ->  `padding = x < mean(x) * eps`).  Pure renaming / naming of sub-expressions only."""
+    fn = copy.deepcopy(fn)
+    changed = True
+    while changed:
+        changed = False
+        body = fn.body
+        for i, st in enumerate(body):
+            if not (isinstance(st, ast.Assign) and len(st.targets) == 1 and isinstance(st.targets[0], ast.Name)):
+                continue
+            name = st.targets[0].id
+            stores = sum(1 for n in ast.walk(fn) if isinstance(n, ast.Name) and n.id == name and isinstance(n.ctx, ast.Store))
+            loads = [n for n in ast.walk(fn) if isinstance(n, ast.Name) and n.id == name and isinstance(n.ctx, ast.Load)]
+            if stores != 1 or len(loads) != 1:
+                continue
+            if not _is_pure_stat(st.value):
+                continue            # only expressions that name a scalar statistic / an arithmetic sub-expression / a rename
+            rhs_names = {n.id for n in ast.walk(st.value) if isinstance(n, ast.Name)}
+            if name in rhs_names:
+                continue
+            use_idx = next((j for j in range(i + 1, len(body)) if any(n is loads[0] for n in ast.walk(body[j]))), None)
+            if use_idx is None:
+                continue
+            if isinstance(body[use_idx], (ast.For, ast.While)):
+                continue
+            between = body[i + 1:use_idx]
+            if any(_assigned_names(b) & rhs_names for b in between):
+                continue
+            sub = _Subst(name, st.value)
+            body[use_idx] = sub.visit(body[use_idx])
+            if sub.count == 1:
+                del body[i]
+                ast.fix_missing_locations(fn)
+                changed = True
+                break
+    return fn
+
+
+def _is_pure_stat(node: ast.AST) -> bool:
+    """`torch.mean(x) * self.eps`, `x.mean() * eps`, arithmetic of such"""
+    if isinstance(node, ast.BinOp):
+        return _is_pure_stat(node.left) and _is_pure_stat(node.right)
+    if isinstance(node, (ast.Name, ast.Constant)):
+        return True
+    if isinstance(node, ast.Attribute):
+        return ast.unparse(node).startswith("self.")
+    if isinstance(node, ast.Call):
+        f = ast.unparse(node.func)
+        return f in ("torch.mean",) or f.endswith(".mean")
+    return False
+
+
+def class_methods(tree: ast.Module, cls: str) -> dict[str, ast.FunctionDef]:
+    node = next((n for n in ast.walk(tree) if isinstance(n, ast.ClassDef) and n.name == cls), None)
+    return {n.name: n for n in node.body if isinstance(n, ast.FunctionDef)} if node else {}
+
+
+def reachable_methods(tree: ast.Module, qual: str) -> list[ast.FunctionDef]:
+    """the method and the methods of the same class it calls through `self.<name>(…)` (transitively)"""
+    cls, meth = qual.split(".")
+    ms = class_methods(tree, cls)
+    if meth not in ms:
+        raise Untranslatable(f"{qual} not found")
+    seen, todo = [], [meth]
+    while todo:
+        m = todo.pop()
+        if m in [x.name for x in seen] or m not in ms:
+            continue
+        seen.append(ms[m])
+        for n in ast.walk(ms[m]):
+            if (isinstance(n, ast.Call) and isinstance(n.func, ast.Attribute) and isinstance(n.func.value, ast.Name)
+                    and n.func.value.id == "self" and n.func.attr in ms):
+                todo.append(n.func.attr)
+    return seen
+
+
+def is_seed_expr(node: ast.AST) -> bool:
+    """`tuple(map(ord, str(sample[...])))` / `tuple(ord(c) for c in str(sample[...]))` (possibly of several fields)"""
+    if not (isinstance(node, ast.Call) and ast.unparse(node.func) == "tuple"):
+        return False
+    t = ast.unparse(node)
+    return "ord" in t and "str(sample[" in t
+
 
 
 class Tr:
@@ -150,20 +258,43 @@ class Tr:
 
     # ---- class bodies ----------------------------------------------------------------------------
     def seed_fields(self, tree, qual: str, target: str | None) -> tuple[str, bool]:
-        """(Lean list of sample fields of the seed expression, seed is passed on to every `self.mask_func` call)."""
-        fn = find_function(tree, qual)
-        seed_expr = None
-        for node in ast.walk(fn):
-            if isinstance(node, ast.IfExp) and "map(ord" in ast.unparse(node.orelse) and "use_seed" in ast.unparse(node.test):
-                if ast.unparse(node.body) != "None" or not isinstance(node.test, ast.UnaryOp):
-                    raise Untranslatable(f"unexpected seed conditional `{ast.unparse(node)}`")
-                if seed_expr is not None:
-                    raise Untranslatable("more than one seed expression")
-                seed_expr = node.orelse
-        if seed_expr is None:
-            raise Untranslatable(f"seed expression not found in {qual}")
+        """(Lean list of sample fields of the seed expression, seed is passed on to every `self.mask_func` call).
+        The seed expression may live in the method or in a private method it calls; it must be guarded by `use_seed`
+        (`None if not use_seed else …`, `… if use_seed else None`, or `if not use_seed: return None`)."""
+        fns = reachable_methods(tree, qual)
+        found = []
+        for fn in fns:
+            parents = {}
+            for p_ in ast.walk(fn):
+                for c_ in ast.iter_child_nodes(p_):
+                    parents[c_] = p_
+            for node in ast.walk(fn):
+                if not is_seed_expr(node):
+                    continue
+                guarded = False
+                q = node
+                while q in parents:
+                    par = parents[q]
+                    if isinstance(par, ast.IfExp) and "use_seed" in ast.unparse(par.test):
+                        other = par.body if par.orelse is q else par.orelse
+                        neg = isinstance(par.test, ast.UnaryOp) and isinstance(par.test.op, ast.Not)
+                        if ast.unparse(other) == "None" and ((par.orelse is q) == neg):
+                            guarded = True
+                    q = par
+                if not guarded:
+                    # `if not self.use_seed: return None` before a `return <seed expression>` in a helper
+                    for st in fn.body:
+                        if (isinstance(st, ast.If) and "use_seed" in ast.unparse(st.test) and isinstance(st.test, ast.UnaryOp)
+                                and len(st.body) == 1 and isinstance(st.body[0], ast.Return) and not st.orelse
+                                and ast.unparse(st.body[0].value) == "None"):
+                            guarded = True
+                if not guarded:
+                    raise Untranslatable(f"seed expression of {qual} is not guarded by use_seed")
+                found.append(node)
+        if len(found) != 1:
+            raise Untranslatable(f"{len(found)} seed expressions in {qual}")
         fields = []
-        for node in ast.walk(seed_expr):
+        for node in ast.walk(found[0]):
             if isinstance(node, ast.Subscript) and ast.unparse(node.value) == "sample":
                 k = node.slice.value if isinstance(node.slice, ast.Constant) else None
                 if k == "filename":
@@ -174,19 +305,20 @@ class Tr:
                     raise Untranslatable(f"seed mentions sample[{k!r}]")
         fields = [f for _, _, f in sorted(fields)]
         passed = True
-        for node in ast.walk(fn):
-            if isinstance(node, ast.Call) and ast.unparse(node.func) == "self.mask_func":
-                kw = {k.arg: ast.unparse(k.value) for k in node.keywords}
-                if kw.get("seed") != (target or "seed"):
-                    passed = False
+        for fn in fns:
+            for node in ast.walk(fn):
+                if isinstance(node, ast.Call) and ast.unparse(node.func) == "self.mask_func":
+                    kw = {k.arg: ast.unparse(k.value) for k in node.keywords}
+                    if kw.get("seed") != (target or "seed"):
+                        passed = False
         return "[" + ", ".join(fields) + "]", passed
 
     def threshold(self) -> str:
-        fn = find_function(self.tree, "ComputeZeroPadding.__call__")
+        fn = inline_once_locals(find_function(self.tree, "ComputeZeroPadding.__call__"))
         cmp_node = None
         local = None
         for st in fn.body:
-            if isinstance(st, ast.Assign) and ast.unparse(st.targets[0]) == "padding":
+            if isinstance(st, ast.Assign) and (ast.unparse(st.targets[0]) == "padding" or "padding_key" in ast.unparse(st.targets[0])):
                 for node in ast.walk(st.value):
                     if isinstance(node, ast.Compare):
                         cmp_node = node
@@ -1014,7 +1146,7 @@ class StageExec:
         self.required: list[str] = []
         self.dicts: dict[str, dict] = {}
         self.intermediate: set[str] = set()
-        self.fn = find_function(tree, f"{cls}.{method}")
+        self.fn = inline_once_locals(find_function(tree, f"{cls}.{method}"))
 
     # ---- helpers ---------------------------------------------------------------------------------
     def fresh(self) -> Loc:
@@ -1148,7 +1280,7 @@ class StageExec:
             f = ast.unparse(node.func)
             if isinstance(node.func, ast.Attribute) and node.func.attr in ("size", "dim"):
                 return True
-            if f in ("len", "tuple", "list", "map", "str", "int", "range", "max", "min", "any", "all", "isinstance",
+            if f in ("len", "tuple", "list", "map", "str", "int", "range", "max", "min", "any", "all", "isinstance", "ord",
                      "IntegerListOrTupleString", "torch.ones", "torch.linspace", "torch.exp", "enumerate", "zip"):
                 return all(self.is_meta_expr(a) for a in node.args) and all(self.is_meta_expr(k.value) for k in node.keywords)
             if (isinstance(node.func, ast.Attribute) and isinstance(node.func.value, ast.Name)
@@ -1426,7 +1558,11 @@ class StageExec:
             return None
         if isinstance(st, ast.Return):
             if st.value is not None and ast.unparse(st.value) != "sample":
-                self.retval = self.ev(st.value)
+                if any(is_seed_expr(n) for n in ast.walk(st.value)) or (
+                        self.is_meta_expr(self.strip(st.value)) and not isinstance(self.strip(st.value), ast.Name)):
+                    self.retval = self.meta_of(st.value)
+                else:
+                    self.retval = self.ev(st.value)
             return "return"
         if isinstance(st, ast.Raise):
             return "raise"
@@ -1494,10 +1630,7 @@ class StageExec:
                 # method of the same class returning a tensor
                 if (isinstance(st.value, ast.Call) and ast.unparse(st.value.func).startswith("self.")
                         and ast.unparse(st.value.func)[5:] in self.methods()):
-                    sub = find_function(self.tree, f"{self.cls}.{ast.unparse(st.value.func)[5:]}")
-                    self.retval = None
-                    self.run_body(sub.body)
-                    self.locals[name] = self.retval
+                    self.locals[name] = self.call_helper(st.value)
                     return None
                 if self.is_meta_expr(self.strip(st.value)) and not isinstance(self.strip(st.value), ast.Name):
                     self.locals[name] = Meta()
@@ -1612,12 +1745,56 @@ class StageExec:
             self.locals[name] = Loc(d.term, temp=True, kind="mask")
         return None
 
+    def call_helper(self, call: ast.Call):
+        """inline a private method of the same class at the call site: parameters are bound to the arguments' values, the
+        body is executed in the caller's state, the value of the `return` that is reached is the result"""
+        sub = inline_once_locals(find_function(self.tree, f"{self.cls}.{ast.unparse(call.func)[5:]}"))
+        params = [a.arg for a in sub.args.args[1:]]
+        if len(call.args) > len(params) or any(k.arg not in params for k in call.keywords):
+            raise Untranslatable(f"{self.cls}: call `{ast.unparse(call)[:60]}`")
+        bound = dict(zip(params, call.args))
+        bound.update({k.arg: k.value for k in call.keywords})
+        saved = dict(self.locals)
+        for pname, arg in bound.items():
+            if isinstance(arg, ast.Name) and arg.id == "sample":
+                if pname != "sample":
+                    raise Untranslatable(f"{self.cls}: sample passed as `{pname}`")
+                continue
+            self.locals[pname] = self.ev(arg) if not self.is_meta_expr(arg) else Meta()
+        depth = getattr(self, "_depth", 0)
+        if depth > 3:
+            raise Untranslatable(f"{self.cls}: helper calls nested too deeply")
+        self._depth = depth + 1
+        self.retval = None
+        try:
+            self.run_body(sub.body)
+        finally:
+            self._depth = depth
+        result = self.retval
+        # the helper's own locals do not leak, but locations it produced stay valid
+        for k_ in list(self.locals):
+            if k_ not in saved:
+                del self.locals[k_]
+        for k_, v_ in saved.items():
+            self.locals[k_] = v_
+        self.retval = None
+        return result if result is not None else Meta()
+
+    def meta_of(self, node: ast.AST) -> "Meta":
+        """classification of a non-tensor value: the seed, a shape derived from the constructor's `shape`, or plain"""
+        if any(is_seed_expr(n) for n in ast.walk(node)):
+            return Meta("seed")
+        if "self.shape" in ast.unparse(node):
+            return Meta("shape-param")
+        return Meta()
+
     def methods(self):
         cls = next(n for n in ast.walk(self.tree) if isinstance(n, ast.ClassDef) and n.name == self.cls)
         return {n.name for n in cls.body if isinstance(n, ast.FunctionDef)}
 
     def seed_value(self, node: ast.AST):
-        if isinstance(node, ast.IfExp) and "map(ord" in ast.unparse(node.orelse) and ast.unparse(node.body) == "None":
+        if isinstance(node, ast.IfExp) and any(is_seed_expr(n) for n in ast.walk(node)) and "None" in (
+                ast.unparse(node.body), ast.unparse(node.orelse)):
             return Meta("seed")
         return None
 
